@@ -46,6 +46,7 @@ fn dispatch(op: &str, a: &[&str]) -> Option<String> {
         "pppre" => ppfind(a, true),
         "twnew" => twnew(a),
         "twfind" => twfind(a),
+        "prestate" => crate::ops2::prestate(a),
         _ => None,
     }
 }
